@@ -11,7 +11,7 @@ VARIABLES tokens, now, replies, last, l
 Trace == ndJsonDeserialize("trace.ndjson")
 
 L == INSTANCE Limiter WITH Svcs <- MCSvcs, IPs <- MCIPs, Ports <- {0},
-                           Burst <- 4, Q <- 2, Steps <- MCSteps, MaxT <- 4
+                           Burst <- 4, Q <- 2, Steps <- MCSteps, MaxT <- 4, Deviations <- {}
 
 TInit == L!Init /\ l = 1 /\ TLCSet(1, 1)
 
